@@ -37,6 +37,10 @@ def run(ctx):
     vlib.call_history_model(ctx)
     vlib.call_histories(ctx, bins["b1t6"], [e for e in events if e.get("t") == 3], ["b1t6.Encode", "b1t6.DecodeTrytes"], "B1TTrace",
                         "real b1t6 result is not the one the B1T specification defines")
+    vlib.call_concurrent(ctx, bins["b1t6"], [e for e in events if e.get("t") == 3], ["b1t6.Encode", "b1t6.Decode", "b1t6.DecodeTrytes"],
+                         "B1TTrace", "real b1t6 result is not the one the B1T specification defines")
+    vlib.call_concurrent(ctx, bins["b1t8"], [e for e in events if e.get("t") == 4], ["b1t8.Encode", "b1t8.Decode"],
+                         "B1TTrace", "real b1t8 result is not the one the B1T specification defines")
     bad = vlib.validate_trace(ctx, "B1TTrace", events)
     for pk, binp in bins.items():
         for e in vlib.reproduce(ctx, binp, [b for b in bad if b["op"].startswith(pk + ".")], history=events):
